@@ -299,7 +299,7 @@ def handleNode (s : St) (op : String) (j : Json) : St × Json :=
       ({ s with node := n }, outJ n o false)
   | _ => (s, badOp)
 
-def step (s : St) (j : Json) : St × Json :=
+def step1 (s : St) (j : Json) : St × Json :=
   match getStr j "op" with
   | some "hs" => (s, handleHs j)
   | some op =>
@@ -307,6 +307,13 @@ def step (s : St) (j : Json) : St × Json :=
     else if op.startsWith "node_" then handleNode s op j
     else (s, badOp)
   | none => (s, badOp)
+
+/-- `{"op":"case","ops":[..]}`: a whole stateful case as one line (the form in which the harness reports the input
+    of a pool / node monitor failure, so that it can be replayed); the observation is that of the last op. -/
+def step (s : St) (j : Json) : St × Json :=
+  match getStr j "op", getArr j "ops" with
+  | some "case", some ops => ops.foldl (fun (acc : St × Json) o => step1 acc.1 o) (s, badOp)
+  | _, _ => step1 s j
 
 end Driver.C12
 
